@@ -5,6 +5,7 @@ import (
 	"encoding/json"
 	"fmt"
 	"sync"
+	"sync/atomic"
 	"testing"
 	"time"
 
@@ -34,6 +35,8 @@ func execC34B(t *testing.T, sc *c34Scenario, keepLog bool) *Outcome {
 	logs := make([]*c34bTaskLog, len(sc.Tasks))
 	torn := make([]string, len(sc.Tasks))
 	var hsErrs [2]error
+	var hsNilButTornDown bool
+	var harnessClosed0 atomic.Bool // a harness task has closed (or is about to close) the client side itself
 	var simElapsed time.Duration
 	leak := kit.Bubble(t, func() {
 		t0 := time.Now()
@@ -51,7 +54,9 @@ func execC34B(t *testing.T, sc *c34Scenario, keepLog bool) *Outcome {
 		ca, cb := kit.BPipe(sc.Net.Window)
 		lat := []time.Duration{0, 150 * time.Microsecond, 1500 * time.Microsecond}[sc.Seed%3]
 		ca.Latency, cb.Latency = lat, lat+time.Nanosecond
-		conns := [2]*tls.Conn{tls.Client(ca, ccfg), tls.Server(cb, scfg)}
+		hsCtx, hsCancel := context.WithCancel(context.Background())
+		hooked := &ioHookConn{BConn: ca, at: int32(sc.CancelAtIO), hook: hsCancel}
+		conns := [2]*tls.Conn{tls.Client(hooked, ccfg), tls.Server(cb, scfg)}
 		var wg sync.WaitGroup
 		base := 20 * time.Second
 		for side := 0; side < 2; side++ {
@@ -61,10 +66,14 @@ func execC34B(t *testing.T, sc *c34Scenario, keepLog bool) *Outcome {
 			go func() {
 				defer wg.Done()
 				c.SetDeadline(time.Now().Add(base))
-				if sc.CancelMs > 0 && side == 0 {
-					ctx, cancel := context.WithCancel(context.Background())
-					time.AfterFunc(time.Duration(sc.CancelMs)*time.Millisecond, cancel)
+				if (sc.CancelMs > 0 || sc.CancelAtIO > 0) && side == 0 {
+					ctx, cancel := hsCtx, hsCancel
+					if sc.CancelMs > 0 {
+						time.AfterFunc(time.Duration(sc.CancelMs)*time.Millisecond, cancel)
+					}
 					hsErrs[side] = c.HandshakeContext(ctx)
+					// success promises a usable connection: the library must not have closed the transport itself
+					hsNilButTornDown = hsErrs[side] == nil && hooked.closed.Load() && !harnessClosed0.Load()
 					cancel()
 				}
 				buf := make([]byte, sc.ReadBuf)
@@ -128,6 +137,9 @@ func execC34B(t *testing.T, sc *c34Scenario, keepLog bool) *Outcome {
 					case "key_update_kill":
 						if c.ConnectionState().HandshakeComplete {
 							c.WriteRecord(22, []byte{24, 0, 0, 1, 1})
+							if tk.Side == 0 {
+								harnessClosed0.Store(true)
+							}
 							c.NetConn().Close()
 						}
 					case "ccs_flood":
@@ -146,6 +158,9 @@ func execC34B(t *testing.T, sc *c34Scenario, keepLog bool) *Outcome {
 					case "closewrite":
 						c.CloseWrite()
 					case "close":
+						if tk.Side == 0 {
+							harnessClosed0.Store(true)
+						}
 						c.Close()
 						return
 					}
@@ -164,6 +179,15 @@ func execC34B(t *testing.T, sc *c34Scenario, keepLog bool) *Outcome {
 	switch {
 	case !finished:
 		o.Fail = Failf("c34.blockedB", "goroutines never returned although every call has a deadline", "bubble ended with: %.400s", leak)
+	}
+	if sc.CancelAtIO > 0 {
+		o.count("probe.raceB_cancel_at_io", 1)
+		if hooked := hsErrs[0]; hooked == nil {
+			o.count("probe.raceB_cancel_at_io_handshake_succeeded", 1)
+		}
+	}
+	if o.Fail == nil && hsNilButTornDown {
+		o.Fail = Failf("c34.handshake_ctx", "HandshakeContext returned nil for a connection whose transport the library had closed on cancellation", "cancelled while transport call %d of the client was returning", sc.CancelAtIO)
 	}
 	if o.Fail == nil {
 		for ti, s := range torn {
@@ -209,3 +233,23 @@ func execC34B(t *testing.T, sc *c34Scenario, keepLog bool) *Outcome {
 	o.Nontrivial = true
 	return o
 }
+
+// ioHookConn: the client's transport in engine B. When its at-th successful Read/Write has done its work, hook runs
+// (the application cancels the handshake's context) and the call takes a little simulated time to return, so that
+// whatever the cancellation triggers runs before the handshake sees the call's result.
+type ioHookConn struct {
+	*kit.BConn
+	n, at  int32
+	hook   func()
+	closed atomic.Bool
+}
+
+func (w *ioHookConn) fire(err error) {
+	if err == nil && w.at > 0 && atomic.AddInt32(&w.n, 1) == w.at && w.hook != nil {
+		w.hook()
+		time.Sleep(300 * time.Microsecond)
+	}
+}
+func (w *ioHookConn) Read(p []byte) (int, error)  { n, err := w.BConn.Read(p); w.fire(err); return n, err }
+func (w *ioHookConn) Write(p []byte) (int, error) { n, err := w.BConn.Write(p); w.fire(err); return n, err }
+func (w *ioHookConn) Close() error                { w.closed.Store(true); return w.BConn.Close() }
